@@ -9,6 +9,7 @@
 
 import collections
 import itertools as it
+import math
 import operator
 import re
 import threading
@@ -980,8 +981,8 @@ def is_number(value):
     if isinstance(value, str) and not NUMERIC_TEXT_RE.match(value):
         return False
     try:
-        float(value)
-        return True
+        # text beyond the range of a double is not a number: "1e400"
+        return math.isfinite(float(value))
     except (ValueError, TypeError):
         return False
 
@@ -1003,7 +1004,7 @@ def coerce_to_number(value, convert_all=False):
     if convert_all and value.upper() in ('TRUE', 'FALSE', EMPTY):
         return int(len(value) == 4)
 
-    if not NUMERIC_TEXT_RE.match(value):
+    if not is_number(value):
         return value
 
     try:
